@@ -25,6 +25,7 @@ Definition EB (t : Uint63.int) (l : list telem) : event := EBatch (n_of_int t) l
 Definition ET (t : Uint63.int) (p hid : N) : event := ETun (n_of_int t) p hid.
 Definition EU (t : Uint63.int) (p ip port hid : N) : event := EUapi (n_of_int t) p (ip, port) hid.
 Definition SH (p : N) (d : Uint63.int) : event := EShiftHs p (n_of_int d).
+Definition ERS (t : Uint63.int) : event := ERestart (n_of_int t).
 
 Definition OD (kind ip port peer : N) : oobs := {| o_kind := kind; o_to := (ip, port); o_peer := peer |}.
 Definition OB (outs : list oobs) (eps : list (N * option addr)) : sobs := {| s_outs := outs; s_eps := eps |}.
@@ -116,7 +117,8 @@ Definition predict_case (k : case) := predict (init_state k) (c_steps k).
     timestamp; 4 initiation flood; 5 response consumed; 6 response rejected; 7 cookie reply; 8 other datagram;
     9 transport accepted; 10 transport replayed / out of window; 11 transport bad tag; 12 transport wrong
     index or dead session; 13 batch with more than one element; 14 TUN -> initiation; 15 TUN -> transport;
-    16 TUN staged only; 17 UAPI endpoint=; 18 steps in which an endpoint moved; 19 confirming element released staged packets] *)
+    16 TUN staged only; 17 UAPI endpoint=; 18 steps in which an endpoint moved; 19 confirming element released staged packets;
+    20 restart (Down/Up)] *)
 
 Fixpoint bump (l : list N) (i : nat) : list N :=
   match l, i with
@@ -181,6 +183,7 @@ Definition classify (st : dstate) (e : event) : list nat :=
       end
   | EUapi _ _ _ _ => [17%nat]
   | EShiftHs _ _ => []
+  | ERestart _ => [20%nat]
   end.
 
 Fixpoint stats_steps (st : dstate) (tr : list (event * sobs)) (acc : list N) : list N :=
@@ -190,4 +193,4 @@ Fixpoint stats_steps (st : dstate) (tr : list (event * sobs)) (acc : list N) : l
   end.
 
 Definition stats (ks : list case) : list N :=
-  fold_left (fun acc k => stats_steps (init_state k) (c_steps k) acc) ks (repeat 0 20).
+  fold_left (fun acc k => stats_steps (init_state k) (c_steps k) acc) ks (repeat 0 21).
